@@ -35,6 +35,9 @@ def h8(obj):
   return hashlib.sha1(obj).hexdigest()[:12]
 
 
+# failure buckets that only say a time budget was hit (never a violation)
+INCONCLUSIVE = ('convert:timeout',)
+
 class Ctx(object):
   def __init__(self, d):
     self.tier = d['tier']
@@ -91,6 +94,10 @@ class Acc(object):
     self.classes[cls] += n
 
   def fail(self, bucket, case, detail):
+    if bucket.startswith(INCONCLUSIVE):
+      # a time budget was hit: inconclusive, counted, never a violation
+      self.classes['inconclusive:' + bucket] += 1
+      return
     lst = self.failures.setdefault(bucket, [])
     if len(self.failures) > self.MAX_BUCKETS and not lst:
       del self.failures[bucket]
@@ -252,7 +259,7 @@ def bucket_matches(bucket, pattern):
 def run_replay_file(mod, path):
   with open(path) as f:
     rec = json.load(f)
-  fails = mod.replay(rec['case'])
+  fails = [f for f in mod.replay(rec['case']) if not f['bucket'].startswith(INCONCLUSIVE)]
   return rec, fails
 
 
@@ -365,8 +372,16 @@ def _main(argv):
   merged_fail = collections.OrderedDict()
   try:
     results, errors = _spawn_workers(modname, ctxs, tmpdir, wall_cap)
+    inconclusive_shards = 0
     for rc, txt in errors:
+      if rc == 'timeout' and results:
+        # a shard hit the wall cap (slow or loaded machine): its part of the search is inconclusive
+        inconclusive_shards += 1
+        print('INCONCLUSIVE: a shard of %s hit the wall cap of %ds; its cases are not counted' % (pid, wall_cap))
+        continue
       harness_errors.append('worker rc=%s\n%s' % (rc, txt))
+    if inconclusive_shards:
+      merged.classes['inconclusive:shards_over_wall_cap'] += inconclusive_shards
     shard_walls = []
     for r in results:
       merged.evaluations += r['evaluations']
